@@ -18,7 +18,7 @@ class ArgumentsTrace(State):
     if __debug__:
 
         @classmethod
-        def of(cls, *args: Any, **kwargs: Any) -> Self:
+        def of(cls, /, *args: Any, **kwargs: Any) -> Self:
             return cls(
                 args=args if args else MISSING,
                 kwargs=kwargs if kwargs else MISSING,
@@ -27,7 +27,7 @@ class ArgumentsTrace(State):
     else:  # remove tracing for non debug runs to prevent accidental secret leaks
 
         @classmethod
-        def of(cls, *args: Any, **kwargs: Any) -> Self:
+        def of(cls, /, *args: Any, **kwargs: Any) -> Self:
             return cls(
                 args=MISSING,
                 kwargs=MISSING,
